@@ -371,6 +371,9 @@ func extVerifUF(fr *frame, a []value) value {
 	}
 	c := fr.ctx()
 	if c.Concrete != nil {
+		if v, ok := c.Concrete[smt.UFModelKey(smt.UF("uf_"+name, smt.BV(64), ts...))]; ok {
+			return v
+		}
 		return ufConcrete(name, 0, ts)
 	}
 	return sym{types.Uint64, smt.UF("uf_"+name, smt.BV(64), ts...)}
@@ -389,11 +392,16 @@ func extVerifUFBytes(fr *frame, a []value) value {
 	out := make([]value, n)
 	c := fr.ctx()
 	for i := range out {
+		ufn := fmt.Sprintf("uf_%s_%d_in%d", name, i, len(in))
 		if c.Concrete != nil {
+			if v, ok := c.Concrete[smt.UFModelKey(smt.UF(ufn, smt.BV(8), ts...))]; ok {
+				out[i] = uint8(v)
+				continue
+			}
 			out[i] = uint8(ufConcrete(name, i, ts).(uint64))
 			continue
 		}
-		out[i] = sym{types.Uint8, smt.UF(fmt.Sprintf("uf_%s_%d_in%d", name, i, len(in)), smt.BV(8), ts...)}
+		out[i] = sym{types.Uint8, smt.UF(ufn, smt.BV(8), ts...)}
 	}
 	return out
 }
